@@ -143,6 +143,18 @@ var C14 = &sqrun.Check{ID: "C14", QuickBudget: 60, ThoroughBudget: 600,
 			// JSON
 			js, _ := json.Marshal(s)
 			docs := []string{string(js), strings.NewReplacer(`\n`, `\u000a`, `\r`, `\u000D`).Replace(string(js))}
+			if !strings.ContainsAny(s, "\"\\") {
+				// the method called directly with the raw bytes between quotes (not valid JSON if they contain control
+				// characters - a lenient decoder may still pass it on): whatever it does, no multi-line value
+				raw := "\"" + s + "\""
+				idr, tyr := sse.ID("before"), sse.Type("before")
+				_ = idr.UnmarshalJSON([]byte(raw))
+				_ = tyr.UnmarshalJSON([]byte(raw))
+				k.cases.Add(2)
+				if (idr.IsSet() && multiline(idr.String())) || (tyr.IsSet() && multiline(tyr.String())) {
+					k.fail("C14: UnmarshalJSON (raw token): a set value contains CR or LF", fmt.Sprintf("UnmarshalJSON(%q) called directly: ID %q (set %v), type %q (set %v)", raw, idr.String(), idr.IsSet(), tyr.String(), tyr.IsSet()), map[string]string{"route": "UnmarshalJSON raw", "input": s})
+				}
+			}
 			for _, d := range docs {
 				id4 := sse.ID("before")
 				err := id4.UnmarshalJSON([]byte(d))
